@@ -35,6 +35,7 @@ import (
 //	           | gname <n> | gtag <t> | gwtag <t> | gsub <v> | glist <skip> <limit>     group store
 //	           | xb <0|1> | xbs <v> | xs <label|nil> | xss <v> | xg | xw | gxb <0|1>      external (func) symbols (c18_s2.go)
 //	           | tagc <t> <fwd> | tagkeys <fwd> | linked <i> <g> | gidx <n>              index / link read paths (c18_s2.go)
+//	           | loadby <id> | loadent <id> | loadraw <id> | tagm <t> | tagany <t>      more loaders / id-list builders (c18_s3.go; model: load, tag)
 //	           | at <place> <query>      the same query on the store family at another base path (c18_s2.go:
 //	                                     every writer operation is applied to every family in the same transaction)
 //	    observation: "Q ids <id>..." | "Q item ..." | "Q count n n n" | "Q torn v1 v2" | "Q error ..."
@@ -92,6 +93,9 @@ type c18World struct {
 	stores *csStores   // = fams[0], the family below "stores"
 	fams   []*csStores // the same stores at base paths of depth 1, 0, 2, 3 (c18s2Places)
 	dir    string
+	// c18_s3.go: events the readers' kept values have lived through
+	commits, restores int64
+	stuckEarlier      map[string]bool // goroutines of abandoned "D" scenarios
 }
 
 // writer-side tracking of the current state, to issue only valid operations
@@ -225,27 +229,7 @@ func c18Marker(tx *bbolt.Tx) (version, count int64, err error) {
 }
 
 func (w *c18World) writerTx(ops []c18Op, commit bool, version, count int64) error {
-	return w.db.Update(nil, func(ctx boltz.MutateContext) error {
-		for _, o := range ops {
-			if err := w.apply(ctx, o); err != nil {
-				return err
-			}
-		}
-		b, err := ctx.Tx().CreateBucketIfNotExists([]byte("r"))
-		if err != nil {
-			return err
-		}
-		if err = b.Put([]byte("version"), []byte(strconv.FormatInt(version, 10))); err != nil {
-			return err
-		}
-		if err = b.Put([]byte("count"), []byte(strconv.FormatInt(count, 10))); err != nil {
-			return err
-		}
-		if !commit {
-			return errC18Rollback
-		}
-		return nil
-	})
+	return w.c18s3WriterTx(c18s3Form{name: "flat", at: -1}, nil, ops, commit, version, count)
 }
 
 func (w *c18World) currentVersion() int64 {
@@ -352,6 +336,13 @@ func c18Paging(r *rng, reader int) (int64, int64) {
 }
 
 func c18GenQuery(r *rng, reader int) c18Query {
+	if r.chance(9) {
+		// entities obtained through every loader, at every place (c18_s3.go: some are kept by the reader)
+		if r.chance(25) {
+			return c18Query{kind: r.pick([]string{"tagm", "tagany"}), a: r.pick(c18TagPool), s: -1, l: -1, d: r.intn(len(c18s2Places))}
+		}
+		return c18Query{kind: r.pick(c18s3LoadKinds), a: r.pick(c18Ids), s: -1, l: -1, d: r.intn(len(c18s2Places))}
+	}
 	if r.chance(22) {
 		// objects registered once on a store and used by every reader: external symbols, index and
 		// link read paths - at every place (base path depth) with the same weight
@@ -441,7 +432,11 @@ func c18Ids2(ids []string) string {
 	return out
 }
 
-func (w *c18World) eval(tx *bbolt.Tx, q c18Query) (res string) {
+func (w *c18World) eval(tx *bbolt.Tx, q c18Query) string { return w.evalK(tx, q, nil) }
+
+// evalK: keep (may be nil) receives closures re-rendering what the query handed to the caller - entities,
+// id lists - so that the caller can hold on to them after the transaction (c18_s3.go)
+func (w *c18World) evalK(tx *bbolt.Tx, q c18Query, keep *c18s3Keep) (res string) {
 	defer func() {
 		if r := recover(); r != nil {
 			res = "Q panic " + hxs(fmt.Sprint(r))
@@ -453,6 +448,7 @@ func (w *c18World) eval(tx *bbolt.Tx, q c18Query) (res string) {
 		if err != nil {
 			return "Q error " + hxs(err.Error())
 		}
+		keep.ids(ids)
 		return c18Ids2(ids)
 	}
 	// the caller's own query object: parse, put the caller's paging on it, run it
@@ -474,6 +470,7 @@ func (w *c18World) eval(tx *bbolt.Tx, q c18Query) (res string) {
 		if err != nil {
 			return "Q error " + hxs(err.Error())
 		}
+		keep.ids(ids)
 		return c18Ids2(ids)
 	}
 	groupIds := func(f string) string {
@@ -481,9 +478,13 @@ func (w *c18World) eval(tx *bbolt.Tx, q c18Query) (res string) {
 		if err != nil {
 			return "Q error " + hxs(err.Error())
 		}
+		keep.ids(ids)
 		return c18Ids2(ids)
 	}
 	if res, ok := c18s2Eval(s, tx, q, queryIds, groupIds); ok {
+		return res
+	}
+	if res, ok := c18s3EvalLoad(s, tx, q, keep); ok {
 		return res
 	}
 	switch q.kind {
@@ -521,23 +522,6 @@ func (w *c18World) eval(tx *bbolt.Tx, q c18Query) (res string) {
 		return groupIds(fmt.Sprintf(`anyOf(watching.tags) = "%s"`, q.a))
 	case "gsub":
 		return groupIds(fmt.Sprintf(`not isEmpty(from watching where val < %d)`, q.v))
-	case "load":
-		e, found, err := s.item.FindById(tx, q.a)
-		if err != nil {
-			return "Q error " + hxs(err.Error())
-		}
-		if !found {
-			return "Q item none"
-		}
-		g := "nil"
-		if e.Group != nil {
-			g = hxs(*e.Group)
-		}
-		out := fmt.Sprintf("Q item %s %s %s %d %d", hxs(e.Id), hxs(e.Name), g, e.Val, len(e.Tags))
-		for _, t := range e.Tags {
-			out += " " + hxs(t)
-		}
-		return out
 	case "name":
 		if id := s.item.idxName.Read(tx, []byte(q.a)); id != nil {
 			return c18Ids2([]string{string(id)})
@@ -548,11 +532,17 @@ func (w *c18World) eval(tx *bbolt.Tx, q c18Query) (res string) {
 		s.item.idxTags.Read(tx, []byte(q.a), func(v []byte) { ids = append(ids, string(v)) })
 		return c18Ids2(ids)
 	case "gitems":
-		return c18Ids2(s.group.GetRelatedEntitiesIdList(tx, q.a, csFieldItems))
+		ids := s.group.GetRelatedEntitiesIdList(tx, q.a, csFieldItems)
+		keep.ids(ids)
+		return c18Ids2(ids)
 	case "links":
-		return c18Ids2(s.item.watchers.GetLinks(tx, q.a))
+		ids := s.item.watchers.GetLinks(tx, q.a)
+		keep.ids(ids)
+		return c18Ids2(ids)
 	case "rlinks":
-		return c18Ids2(s.group.watching.GetLinks(tx, q.a))
+		ids := s.group.watching.GetLinks(tx, q.a)
+		keep.ids(ids)
+		return c18Ids2(ids)
 	case "f1":
 		return queryIds(fmt.Sprintf(`group = "%s" and val >= %d sort by name`, q.a, q.v))
 	case "f2":
@@ -917,6 +907,25 @@ func runC18(o *opts) error {
 		nWriterTx = o.n
 	}
 
+	// transactions composed of joined Db calls against a restore, one scenario at a time (c18_s3.go).  When
+	// one gets stuck the same interleaving is not repeated inside the main workload (it would hang the run).
+	stuck := 0
+	for k, sc := range c18s3Scenarios(newRng(o.seed*7919+17), o.thorough()) {
+		if stuck >= o.getInt("dmax", 3) || o.get("dscenarios", "on") != "on" { // off: self-test of the stall watchdog of the main workload
+			break
+		}
+		cases.line("%s", sc.String())
+		obs := c18s3RunScn(dir, k, sc, time.Second)
+		impl.line("%s", obs)
+		stats["d_scenarios"]++
+		if strings.HasPrefix(obs, "D stuck") {
+			stuck++
+			stats["d_stuck"]++
+		}
+	}
+	midTxRestore := stuck == 0 && o.get("restores", "on") == "on"
+	w.stuckEarlier = c18s3StuckEarlier()
+
 	// sequential baselines
 	parseBase := map[string]string{}
 	for _, f := range c18Filters {
@@ -933,10 +942,13 @@ func runC18(o *opts) error {
 	type spRec struct{ kind, arg, obs string }
 	var sps []spRec
 	var wg sync.WaitGroup
+	keepers := make([]*c18s3Keeper, nReaders)
 	for ri := 0; ri < nReaders; ri++ {
 		wg.Add(1)
+		keepers[ri] = &c18s3Keeper{reader: ri}
 		go func(ri int) {
 			defer wg.Done()
+			kp := keepers[ri]
 			r := newRng(o.seed*1000 + int64(ri) + 1)
 			var local []c18Rec
 			var localSp []spRec
@@ -958,24 +970,38 @@ func runC18(o *opts) error {
 				}
 				_ = w.db.View(func(tx *bbolt.Tx) error {
 					v1, _, _ := c18Marker(tx)
+					info, infoOK := c18s3LoadInfo(tx, v1)
 					nq := 2 + r.intn(4)
 					var mine []c18Rec
 					for k := 0; k < nq; k++ {
 						q := c18GenQuery(r, ri)
-						mine = append(mine, c18Rec{reader: ri, tx: txn, version: v1, q: q, obs: w.eval(tx, q)})
+						// some of what the reader obtains is kept beyond the transaction (c18_s3.go)
+						var kc *c18s3Keep
+						if r.chance(30) || strings.HasPrefix(q.kind, "load") {
+							kc = &c18s3Keep{}
+						}
+						mine = append(mine, c18Rec{reader: ri, tx: txn, version: v1, q: q, obs: w.evalK(tx, q, kc)})
+						kp.keep(w, txn, v1, q.String(), kc)
 						if k == 0 {
 							time.Sleep(time.Duration(r.intn(300)) * time.Microsecond)
 						}
 					}
+					if info != nil && r.chance(30) {
+						kp.keep(w, txn, v1, "info", &c18s3Keep{fns: []func() string{func() string { return fmt.Sprint(info) }}})
+					}
 					v2, _, _ := c18Marker(tx)
-					if v2 != v1 {
+					if v2 != v1 || !infoOK {
 						for k := range mine {
 							mine[k].obs = fmt.Sprintf("Q torn %d %d", v1, v2)
+							if !infoOK {
+								mine[k].obs += " info " + hxs(fmt.Sprint(info))
+							}
 						}
 					}
 					local = append(local, mine...)
 					return nil
 				})
+				kp.check(w, 3)
 				if len(local) > 40000 {
 					break
 				}
@@ -991,7 +1017,10 @@ func runC18(o *opts) error {
 	r := newRng(o.seed)
 	track := &c18Track{items: map[string]c18Item{}, links: map[[2]string]bool{}}
 	version := int64(0)
-	for i := 0; i < nWriterTx; i++ {
+	c18s3StallState.armed.Store(true)
+	go c18s3StallWatchdog(o.out, 3*time.Second)
+	restoreKinds := []string{"snapshot", "reader"}
+	writerStep := func(i int) {
 		next := track.clone()
 		var ops []c18Op
 		for k, n := 0, 2+r.intn(5); k < n; k++ {
@@ -1001,6 +1030,7 @@ func runC18(o *opts) error {
 		}
 		commit := !r.chance(10)
 		var werr error
+		form := c18s3Form{name: "flat", at: -1}
 		if o.get("inject", "") == "split" && commit && len(ops) > 1 {
 			// self-test of the comparison (fault injection, never used by the check itself): the
 			// writer's transaction becomes visible in two pieces
@@ -1015,32 +1045,75 @@ func runC18(o *opts) error {
 			time.Sleep(200 * time.Microsecond)
 			werr = w.writerTx(ops[len(ops)/2:], true, version+1, int64(len(next.items)))
 		} else {
-			werr = w.writerTx(ops, commit, version+1, int64(len(next.items)))
+			// the form of the transaction: plain, or composed of Db calls that join it; a transaction that rolls
+			// back may have the state before it restored while it is open (c18_s3.go)
+			form = c18s3GenForm(r, len(ops), commit, midTxRestore)
+			var snap []byte
+			if form.at >= 0 {
+				if snap, werr = c18s3Snapshot(w.db); werr != nil {
+					form.at = -1
+				}
+			}
+			werr = w.c18s3WriterTx(form, snap, ops, commit, version+1, int64(len(next.items)))
+			stats["form_"+form.name]++
+			if form.at >= 0 {
+				stats["restore_during_tx"]++
+			}
 		}
 		parts := make([]string, 0, len(ops))
 		for _, op := range ops {
 			parts = append(parts, op.String())
 		}
-		cases.line("W %d %d %s", b2i(commit), len(ops), strings.Join(parts, " "))
+		cases.line("W %d %d %s%s", b2i(commit), len(ops), strings.Join(parts, " "), form.String())
 		switch {
 		case werr == nil:
 			version++
 			track = next
+			atomic.AddInt64(&w.commits, 1)
 			stats["writer_committed"]++
 		case errors.Is(werr, errC18Rollback):
 			stats["writer_rolledback"]++
 		default:
 			stats["writer_failed"]++
 			impl.line("W error %s", hxs(werr.Error()))
-			continue
+			return
 		}
 		impl.line("W %d", w.currentVersion())
 		if i%4 == 0 {
 			time.Sleep(time.Duration(100+r.intn(400)) * time.Microsecond)
 		}
 	}
+	// the current committed state streamed out and restored: no version changes, the file and its mapping do
+	restoreStep := func() {
+		rk := r.pick(restoreKinds)
+		cases.line("R %s", rk)
+		if err := w.c18s3RestoreCurrent(rk); err != nil {
+			impl.line("R error %s", hxs(err.Error()))
+		} else {
+			impl.line("R %d", w.currentVersion())
+		}
+		stats["restore_between_tx"]++
+	}
+	for i := 0; i < nWriterTx; i++ {
+		writerStep(i)
+		if o.get("restores", "on") == "on" && i > 10 && r.chance(4) {
+			restoreStep()
+		}
+	}
 	atomic.StoreInt32(&stop, 1)
 	wg.Wait()
+	// what the readers still hold lives through a restore, some more commits and another restore
+	if o.get("restores", "on") == "on" {
+		restoreStep()
+		for i := 0; i < 4; i++ {
+			writerStep(nWriterTx + i)
+		}
+		restoreStep()
+	}
+	c18s3StallState.armed.Store(false)
+	for _, kp := range keepers {
+		kp.check(w, 0)
+	}
 
 	sort.SliceStable(recs, func(i, j int) bool {
 		if recs[i].reader != recs[j].reader {
@@ -1057,6 +1130,19 @@ func runC18(o *opts) error {
 	}
 	stats["reader_queries"] = len(recs)
 	stats["distinct_versions_observed"] = len(seenVersions)
+	for _, k := range c18s3SortedRecs(keepers) {
+		cases.line("K %d %d %d %d %d %s", k.reader, k.tx, k.version, k.commits, k.restores, k.what)
+		impl.line("%s", k.obs)
+		stats["k_checked"]++
+		if k.restores > 0 {
+			stats["k_after_restore"]++
+		}
+		kf := strings.Fields(k.what)
+		if kf[0] == "at" && len(kf) > 2 {
+			kf = kf[2:]
+		}
+		stats["k_"+kf[0]]++
+	}
 	for _, sp := range sps {
 		cases.line("%s %s", sp.kind, hxs(sp.arg))
 		impl.line("%s %s", sp.kind, sp.obs)
@@ -1107,6 +1193,8 @@ func c18Replay(w *c18World, path string, cases, impl *lineWriter) error {
 	version := int64(0)
 	count := int64(0)
 	_ = count
+	kp := &c18s3Keeper{} // "K" lines keep what they load, "KC" lines read it again
+	dk := 1000           // directory number of the next "D" scenario
 	for _, line := range strings.Split(strings.TrimSpace(string(data)), "\n") {
 		f := strings.Fields(line)
 		if len(f) == 0 {
@@ -1164,9 +1252,15 @@ func c18Replay(w *c18World, path string, cases, impl *lineWriter) error {
 				}
 				return nil
 			})
-			werr := w.writerTx(ops, commit, version+1, -1)
+			form := c18s3ParseForm(f)
+			var snap []byte
+			if form.at >= 0 {
+				snap, _ = c18s3Snapshot(w.db)
+			}
+			werr := w.c18s3WriterTx(form, snap, ops, commit, version+1, -1)
 			if werr == nil {
 				version++
+				atomic.AddInt64(&w.commits, 1)
 				// the count marker is recomputed so that a replay keeps the writer's invariant
 				_ = w.db.Update(nil, func(ctx boltz.MutateContext) error {
 					var c int64
@@ -1187,6 +1281,62 @@ func c18Replay(w *c18World, path string, cases, impl *lineWriter) error {
 				impl.line("%s", w.eval(tx, q))
 				return nil
 			})
+		case "R":
+			rk := "snapshot"
+			if len(f) > 1 {
+				rk = f[1]
+			}
+			if err := w.c18s3RestoreCurrent(rk); err != nil {
+				impl.line("R error %s", hxs(err.Error()))
+			} else {
+				impl.line("R %d", w.currentVersion())
+			}
+		case "D":
+			if sc, ok := c18s3ParseScn(f); ok {
+				dk++
+				impl.line("%s", c18s3RunScn(w.dir, dk, sc, time.Second))
+			} else {
+				impl.line("D unknown")
+			}
+		case "K":
+			// load now, keep; the value must read the same already inside the transaction
+			if len(f) < 7 {
+				impl.line("K unknown")
+				break
+			}
+			_ = w.db.View(func(tx *bbolt.Tx) error {
+				v, _, _ := c18Marker(tx)
+				kc := &c18s3Keep{}
+				if f[6] == "info" {
+					if info, _ := c18s3LoadInfo(tx, v); info != nil {
+						kc.add(func() string { return fmt.Sprint(info) })
+					}
+				} else {
+					w.evalK(tx, c18ParseQuery(f[6:]), kc)
+				}
+				kp.keep(w, len(kp.kept), v, strings.Join(f[6:], " "), kc)
+				return nil
+			})
+			impl.line("K same")
+		case "KC":
+			if len(f) > 1 && f[1] == "1" {
+				if err := w.c18s3RestoreCurrent("snapshot"); err != nil {
+					impl.line("K error %s", hxs(err.Error()))
+					break
+				}
+			}
+			keep := append([]c18s3Kept{}, kp.kept...)
+			kp.recs = nil
+			kp.check(w, 0)
+			kp.kept = keep // a later KC reads them again
+			obs := "K same"
+			for _, rec := range kp.recs {
+				if rec.obs != "K same" {
+					obs = rec.obs
+					break
+				}
+			}
+			impl.line("%s", obs)
 		case "S":
 			impl.line("S same")
 		case "P":
